@@ -254,8 +254,10 @@ def project(prop, b, ev, ctx):
                          tuple(sorted(bid_amounts(x) for x in b.bids.values()))))
         if k == "PEXEC" and sub in ("cancel_ask", "cancel_bid", "expire_ask", "expire_bid"):
             ai, bi = ev.ids()
+            # ... and which orders are open afterwards: every other order must still be there to be exited in its turn
             return (None, (ok, flows(b, ev), tuple(sorted(repr(shape(m)) for m in b.msgs)) if ok else (),
-                           tuple(i in b.asks for i in ai) if ok else (), tuple(i in b.bids for i in bi) if ok else ()))
+                           tuple(i in b.asks for i in ai) if ok else (), tuple(i in b.bids for i in bi) if ok else (),
+                           (tuple(sorted(b.asks)), tuple(sorted(b.bids))) if ok else ()))
     elif prop == "C07":
         if is_exec and sub in ("create_ask", "create_bid"):
             return (None, (ok, tuple(b.msgs), book_lines(b)))
@@ -311,6 +313,11 @@ def project(prop, b, ev, ctx):
     elif prop == "C16":
         if k == "QUERY":
             return (None, (ok, tuple(b.qry) if b.qry else None, b.storage_changed))
+        if is_exec and b.has_dump:
+            # what get_ask / get_bid of the ids this request names will answer from now on (the record, or "not on the book")
+            ai, bi = ev.ids()
+            return (ok, (tuple(ask_full(b.asks[i]) if i in b.asks else None for i in ai),
+                         tuple(bid_full(b.bids[i]) if i in b.bids else None for i in bi)))
     elif prop == "C17":
         if is_exec:
             # the price is reported "as a number": "2", "2.00" and "+2" are the same report, "2.00...04" is not
@@ -323,6 +330,139 @@ def project(prop, b, ev, ctx):
             return (ok, (tuple(sorted((a, norm(a, v)) for a, v in b.attrs if a in NAMED_ATTRS)), flows(b, ev)))
     return None
 
+
+
+# ---------------------------------------------------------------------------------------------------------
+# model-backed verdicts: where a theorem fixes the outcome of a request completely (an "if and only if", or a
+# function of the stored data), the outcome of the proved model IS what the property prescribes, so an implementation
+# that decides otherwise on the same state and request fails the property on that input.  Used only after the
+# correspondence broke, on the minimised replay, when every earlier step of it is agreed by model and implementation
+# (the pre-state is then one the model reaches too) and the request is outside the recorded numeric classes.
+# ---------------------------------------------------------------------------------------------------------
+def _mant(text):
+    return int(text.replace("_", "").lstrip("+-").replace(".", "") or "0")
+
+
+def order_wellformed(o, cfg):
+    """the order-level part of the invariant (Inv.v / InvBid.v), for orders taken over from seeded legacy books"""
+    try:
+        if cfg is None or o.key != o.id:
+            return False
+        if isinstance(o, fmt.Ask):
+            ok = o.size >= 1 and o.quote in cfg.quotes and (o.base == cfg.base or o.base in cfg.conv)
+            ok = ok and (o.cls[0] == "basic") == (o.base == cfg.base)
+            if o.cls[0] == "ready":
+                ok = ok and o.cls[2] == cfg.base and o.cls[3] == o.size
+            pv = parse_dec_exact(o.price)
+            return bool(ok and pv is not None and pv > 0)
+        if isinstance(o, fmt.Bid):
+            pv = parse_dec_exact(o.price)
+            if pv is None or pv <= 0 or o.base_denom != cfg.base or o.quote_denom not in cfg.quotes:
+                return False
+            if not (1 <= o.rem_base <= o.base_amt < 2 ** 96 and 0 <= o.rem_quote <= o.quote_amt < 2 ** 96):
+                return False
+            if pv * o.base_amt != o.quote_amt or pv * o.rem_base != o.rem_quote:
+                return False
+            if o.fee:
+                if o.fee[1] != o.quote_denom or not (0 <= o.rem_fee <= o.fee[0] < 2 ** 96):
+                    return False
+                if 20 * o.quote_amt * o.fee[0] > 10 ** 28:
+                    return False
+                exact = Fraction(o.fee[0] * o.rem_quote, o.quote_amt)
+                if abs(exact - o.rem_fee) > Fraction(1, 2):
+                    return False
+            elif o.acc_fee:
+                return False
+            return True
+    except Exception:
+        pass
+    return False
+
+
+def model_backed(prop, ev, bi, bm, pre):
+    """message when the implementation's outcome at this event contradicts what the theorems of `prop` prescribe,
+    None when this rule does not judge the event.  bi / bm: implementation / model block of the event;
+    pre: dict(asks, bids, cfg, seeded, migration, tainted, self_sent) -- the implementation's state before it."""
+    k, sub = ev.kind, ev.sub
+    is_exec = k in ("EXEC", "PEXEC")
+    if pre.get("tainted") or pre.get("self_sent"):
+        return None
+    legacy = pre.get("seeded") or pre.get("migration")
+    merr = fmt.dec(bm.err) if getattr(bm, "err", None) else "?"
+    ierr = fmt.dec(bi.err) if getattr(bi, "err", None) else "?"
+    try:
+        if prop == "C03" and is_exec and sub == "execute_match" and not legacy and bi.ok != bm.ok:
+            a = pre["asks"].get(fmt.dec(ev.args[0]))
+            b = pre["bids"].get(fmt.dec(ev.args[1]))
+            s = int(ev.args[3])
+            if a is not None and isinstance(b, fmt.Bid):
+                if not (_mant(fmt.dec(ev.args[2])) * s < 2 ** 96 and _mant(b.price) * s < 2 ** 96 and _mant(a.price) * s < 2 ** 96):
+                    return None
+            if bi.ok:
+                return ("match accepted although it is not eligible: the proved model refuses it (refusal point %s; theorem "
+                        "C03_only_if lists the conditions an accepted match meets)" % merr)
+            return ("eligible match refused (%s): the proved model carries it out, and C03_if shows every request meeting "
+                    "the conditions of the property is accepted" % ierr)
+        if prop == "C06" and k == "PEXEC" and sub in ("cancel_ask", "cancel_bid", "expire_ask", "expire_bid") and bm.ok and not bi.ok:
+            ai, bids_ = ev.ids()
+            o = pre["asks"].get(ai[0]) if ai else pre["bids"].get(bids_[0]) if bids_ else None
+            cfg = pre["cfg"]
+            entitled = (isinstance(o, (fmt.Ask, fmt.Bid)) and not ev.funds and cfg is not None and
+                        (ev.sender == o.owner if sub.startswith("cancel") else ev.sender in cfg.executors))
+            if entitled and order_wellformed(o, cfg):
+                return ("%s of an open, well-formed order by its %s is refused (%s); the proved model accepts it "
+                        "(C06_ask_cancel / C06_bid_cancel / C06_after_migration)" % (sub, "owner" if sub.startswith("cancel") else "executor", ierr))
+            return None
+        if prop == "C07" and is_exec and sub in ("create_ask", "create_bid") and not legacy:
+            if sub == "create_bid":
+                cfg = pre["cfg"]
+                q, sz = int(ev.args[5]), int(ev.args[6])
+                if max(q, sz) >= 2 ** 96:
+                    return None
+                if cfg is not None and cfg.bid_fee and _mant(cfg.bid_fee[1]) * q >= 2 ** 96:
+                    return None
+                if _mant(fmt.dec(ev.args[3])) * sz >= 2 ** 96:
+                    return None
+            if bi.ok and not bm.ok:
+                return ("%s recorded although an admission condition fails: the proved model refuses it (refusal point %s; "
+                        "C07_ask_iff / C07_bid_only_if)" % (sub, merr))
+            if bm.ok and not bi.ok:
+                return ("%s meeting every admission condition is refused (%s); the proved model admits it "
+                        "(C07_ask_iff / C07_bid_if)" % (sub, ierr))
+            if bi.ok and bm.ok and (tuple(bi.msgs) != tuple(bm.msgs) or book_lines(bi) != book_lines(bm)):
+                return ("%s admitted, but the recorded order / the escrow pulled differ from the request "
+                        "(C07_bid_only_if, C07_escrow_equals_obligation fix both)" % sub)
+            return None
+        if prop == "C08" and is_exec and sub == "approve_ask" and not legacy and bi.ok != bm.ok:
+            if bi.ok:
+                return ("approval accepted although a condition of the property fails: the proved model refuses it "
+                        "(refusal point %s; C08_approve_only_if)" % merr)
+            return "approval meeting every condition is refused (%s); the proved model accepts it (C08_approve_if)" % ierr
+        if prop == "C13" and k == "INST" and bi.ok != bm.ok:
+            if bi.ok:
+                return "instantiate accepted for a configuration that is not coherent (model refusal point %s; C13_iff)" % merr
+            return "coherent configuration refused at instantiation (%s; C13_iff)" % ierr
+        if prop == "C14" and k in ("MIGRATE", "PMIGRATE") and bi.ok != bm.ok:
+            if bi.ok:
+                return ("migration accepted although the proved model refuses it (refusal point %s; "
+                        "C14_refused_when_unsupported / C14_gate_and_effect)" % merr)
+            return "migration from a supported version with a valid request refused (%s; C14_gate_and_effect)" % ierr
+        if prop == "C15" and k in ("MIGRATE", "PMIGRATE") and bi.ok and bm.ok:
+            want = tuple(l for l in bm.lines if l.split(" ", 1)[0] in ("BID3", "BID2", "BIDX"))
+            got = tuple(l for l in bi.lines if l.split(" ", 1)[0] in ("BID3", "BID2", "BIDX"))
+            if want != got:
+                diff = sorted(set(want) ^ set(got))
+                return ("the bid book after migration is not the conversion the property prescribes (C15_conversion_preserves, "
+                        "C15_book_slots, C15_nothing_rewritten_after_window): %s" % (" | ".join(diff[:2])[:400]))
+            return None
+        if prop == "C16" and k == "QUERY":
+            if (bi.ok, tuple(bi.qry) if bi.qry else None, bi.storage_changed) != (bm.ok, tuple(bm.qry) if bm.qry else None, bm.storage_changed):
+                return ("query answer differs from the stored book / configuration (C16_get_ask, C16_get_bid, C16_absent_*, "
+                        "C16_contract_info, C16_version_info determine it): implementation %s, prescribed %s" %
+                        ("ok" if bi.ok else "fails", "ok" if bm.ok else "fails"))
+    except Exception:
+        return None
+    return None
 
 # ---------------------------------------------------------------------------------------------------------
 # implementation-side oracles: evaluate the property text on the implementation's own observations
@@ -471,6 +611,19 @@ class Oracle:
         return out
 
     def feed(self, b, ev):
+        # a book in which some record sits under a key that is not its own id field is not a state of the contract
+        # (every version saves an order under its id: Inv.v, MigrateInv.MigPre); seeded that way it is compared with
+        # the model like any other, but the property text is not judged on it
+        try:
+            odd = any(o.key != o.id for o in self.asks.values()) or \
+                any((o.key != o.id) if isinstance(o, fmt.Bid) else (isinstance(o, tuple) and o[0] == "v2" and fmt.dec(o[1][0]) != kk)
+                    for kk, o in self.bids.items())
+        except Exception:
+            odd = False
+        out = self.feed_(b, ev)
+        return [] if odd else out
+
+    def feed_(self, b, ev):
         out = []
         k = ev.kind
         if k == "META":
@@ -640,6 +793,25 @@ class Oracle:
                     out.append(("C14", None, "migrate did not stamp the package version"))
                 if set(b.bids) != set(self.bids):
                     out.append(("C15", None, "migrate lost or invented a bid"))
+                # the conversion window, for stored versions written as three plain numbers (other spellings are the
+                # model's business: Semver.v)
+                vt = None
+                try:
+                    vs = self.ver[1] if self.ver else None
+                    if vs is not None and all(x.isdigit() and (x == "0" or x[0] != "0") and len(x) < 15 for x in vs.split(".")) and vs.count(".") == 2:
+                        vt = tuple(int(x) for x in vs.split("."))
+                except Exception:
+                    vt = None
+                if vt is not None:
+                    if vt < (0, 16, 2):
+                        out.append(("C14", None, "migration accepted from stored version %s, older than the supported minimum" % vs))
+                    for key, old in self.bids.items():
+                        new = b.bids.get(key)
+                        if isinstance(old, tuple) and old[0] == "v2":
+                            if (0, 16, 2) <= vt < (0, 19, 1) and not isinstance(new, fmt.Bid):
+                                out.append(("C15", None, "migrating from %s left bid %s in the old format" % (vs, str(key)[:8])))
+                            if vt >= (0, 19, 1) and new != old:
+                                out.append(("C15", None, "migrating from %s (after the format change) rewrote bid %s" % (vs, str(key)[:8])))
                 for key, old in self.bids.items():
                     new = b.bids.get(key)
                     if isinstance(old, fmt.Bid) and (not isinstance(new, fmt.Bid) or bid_full(new) != bid_full(old)):
@@ -656,6 +828,14 @@ class Oracle:
                         if (new.acc_base, new.acc_quote, new.acc_fee) != (sb, sq, sf) or \
                                 (fmt.enc(new.id), fmt.enc(new.owner), new.base_amt, new.quote_amt, fmt.enc(new.price)) != (f[0], f[1], int(f[3]), int(f[5]), f[7]):
                             out.append(("C15", None, "converted bid does not preserve the remaining amounts of its event log"))
+                        if (new.acc_quote, new.acc_fee) != (sq, sf) and new.quote_amt == int(f[5]):
+                            # order by order (C01): received on the bid's behalf minus paid on its behalf, per its own log
+                            fee0 = new.fee[0] if new.fee else 0
+                            out.append(("C01", None, "bid %s: escrowed %d, paid out %d per its event log, yet the converted bid records %d remaining"
+                                        % (str(key)[:8], new.quote_amt + fee0, sq + sf, new.rem_quote + new.rem_fee)))
+                        if new.acc_fee != sf:
+                            out.append(("C09", None, "bid %s: fees paid and returned so far add up to %d, the converted bid records %d"
+                                        % (str(key)[:8], sf, new.acc_fee)))
             except Exception:
                 pass
         probe = k in ("PEXEC", "PMIGRATE")
@@ -737,6 +917,25 @@ class Oracle:
                         got = dict((kk, v) for kk, v in fl.items() if kk[0] != SELF)
                         if got != want or bi[0] in b.bids:
                             out.append(("C06", None, "bid exit did not return the whole escrow"))
+        # ---- C11 / C07: a creation never touches a record already resting under its id (whatever its storage format)
+        if b.ok and k in ("EXEC", "PEXEC") and ev.sub in ("create_ask", "create_bid") and b.has_dump:
+            ai, bi = ev.ids()
+            for i, pre_book, post_book in [(x, self.asks, b.asks) for x in ai] + [(x, self.bids, b.bids) for x in bi]:
+                if i in pre_book:
+                    o0, o1 = pre_book[i], post_book.get(i)
+                    same = (o1 is not None and type(o0) is type(o1) and
+                            ((ask_full(o0) == ask_full(o1)) if isinstance(o0, fmt.Ask) else (bid_full(o0) == bid_full(o1))))
+                    if not same:
+                        out.append(("C11", None, "%s under id %s rewrote the order already resting under that id" % (ev.sub, i[:13])))
+                        out.append(("C07", None, "%s under id %s admitted although the id is on that side of the book; the resting order was overwritten" % (ev.sub, i[:13])))
+        # ---- C11 / C06: an exit touches the order it names and no other; an order that vanishes without being named can
+        # never be cancelled by its owner
+        if b.ok and k in ("EXEC", "PEXEC") and ev.sub in REVERSE and b.has_dump:
+            ai, bi = ev.ids()
+            gone = sorted((set(self.asks) - set(ai)) - set(b.asks)) + sorted((set(self.bids) - set(bi)) - set(b.bids))
+            if gone:
+                out.append(("C11", None, "%s of %s removed another order from the book: %s" % (ev.sub, (ai or bi)[0][:12], gone[0][:40])))
+                out.append(("C06", None, "%s of %s removed order %s, which its owner can now never cancel" % (ev.sub, (ai or bi)[0][:12], gone[0][:40])))
         # ---- C17: a shadow book kept in step with the attributes alone never diverges from the book
         if b.ok and k in ("EXEC", "PEXEC") and b.has_dump and not self.seeded and not self.migration:
             try:
@@ -857,6 +1056,8 @@ class Oracle:
                                 out.append(("C04", None, "bid reversal pays somebody other than the owner"))
                             if pr is not None and paid != pr * c + fee_back:
                                 out.append(("C04", None, "bid reversal of %d returned %d, price*c + fee part is %s" % (c, paid, pr * c + fee_back)))
+                        if after is not None and rem1 == 0:
+                            out.append(("C04", None, "order reduced to zero by %s stays on the book" % ev.sub))
                         if len(ev.args) > 1 and ev.args[1] != "-" and ev.sub.startswith("reject"):
                             sz = int(ev.args[1])
                             if not (1 <= sz <= rem0 and sz % self.cfg.increment == 0):
